@@ -4,7 +4,8 @@ Spec: specs/Solvers.tla (+ lib/MatQ.tla).  TLC runs CGLS / PCGLS as a state mach
 r = b - Ax, s = P^-T(A^T r - shift x), orthogonality of the residuals, finite termination and the shifted normal
 equations at termination; it verifies the KKT / fixed-point identity of the constructed proximal-gradient problems,
 the projection / proximal characterisations on a lattice, the stationary points of the Levenberg-Marquardt problems
-and the sign relation of the SciPy wrappers; kind "seq" is a small state machine (actions Solve / SetOp) for ONE solver object
+and the sign relation of the SciPy wrappers; every argument array has a LAYOUT (field lay: integer / float32 / Fortran / strided /
+read-only arrays, lists) that the end point must not depend on (LayoutIndependent); kind "seq" is a small state machine (actions Solve / SetOp) for ONE solver object
 used for a sequence of public operations: the end point expected from a Solve depends only on the operands the object holds at
 that moment.  Every problem / behaviour is emitted with its exact rational answers; this module runs the real solvers on them
 (the wrappers against SciPy called directly, for default and non-default documented keyword arguments).
@@ -43,10 +44,24 @@ META = {
              "quadratics with condition number 4^11 / 4^7, Powell, maximize, L_BFGS_B); invariant CallsIndependent (a call works "
              "under the documented default limit of ITS OWN method and dimension; deviation DefaultsLeakBetweenCalls refuted); "
              "every order runs in a fresh python process and once more in the harness process, each call compared with SciPy "
-             "called directly with the documented defaults."),
+             "called directly with the documented defaults.  Layouts: every argument array has a LAYOUT in the TLC-enumerated "
+             "configuration (field lay = layouts of A, b, x0: float64, integer array, float32, Fortran order, strided view, reversed "
+             "view, read-only, python list; points / bounds of the projections also (n,1), (1,n), 0-d) - each argument's layout varied "
+             "alone, all the same, mixed triples (thorough: every pair); CGLS / PCGLS problems with a layout run through the cg "
+             "machine, which stores its iterate through Cast(layout of x0, .), FISTA / ISTA, LM, the four wrappers and the three "
+             "projections are problems of kind lay in postcondition form; invariant LayoutIndependent (the end point is the solution "
+             "of the problem WITHOUT its layout and satisfies the optimality system, the recurrence residual is the residual of the "
+             "stored iterate), action property ArgumentsFrame (no action changes the problem); named deviation "
+             "IterateKeepsStartDtype (the iterate buffer has the layout of the start vector: an integer start truncates) refuted.  "
+             "The harness builds the real arguments in that layout from the same exact numbers, requires the same residual checks "
+             "with the same tolerances for every RETURNED point (a raised exception asserts nothing: observation layout_refused), "
+             "exact images in the shape of the input for the projections, and that every argument buffer (shape, strides, dtype, "
+             "flags, bytes, the buffer behind a view, list items) is what it was before the call - also for all problems of kind cg."),
     "note": ("Bounded sizes (n <= 3). Problems whose exact CG iterates exceed TLC's 32-bit integers are followed up to that point "
              "and then compared through their exact solution only (status 'abandoned' in the emitted case). FISTA/LM tolerances are "
-             "derived from the solvers' own stopping rules (abstol/(t mu), gradtol |g0|)."),
+             "derived from the solvers' own stopping rules (abstol/(t mu), gradtol |g0|). A float32 start vector makes CGLS / PCGLS keep "
+             "and return their iterate in single precision (numpy in-place update): that point is compared at (maxit + 2) eps32 and its "
+             "iteration count is not bounded above; an integer start vector makes them raise (observed, not asserted)."),
     "technique": "TLA+ spec (Solvers) model-checked with TLC; TLC-emitted problems and exact rational iterates replayed into cuqi.solver",
 }
 
